@@ -113,6 +113,10 @@ pub fn build(ch: &mut Ch) -> (Shader, Value) {
                 })
             } else {
                 Some(match ty {
+                    // unusual but legal spellings of a default: zero-value constructor, conversion
+                    _ if ch.chance(1, 5) => format!("{}()", ty.wgsl()),
+                    Sc::F32 if ch.chance(1, 6) => format!("f32({})", ch.range(0, 9)),
+                    Sc::U32 if ch.chance(1, 6) => format!("u32({}i)", ch.range(0, 9)),
                     Sc::Bool => ch.flip().to_string(),
                     Sc::I32 => format!("{}i", ch.range(0, 1000) as i32 - 500),
                     Sc::U32 => format!("{}u", ch.range(0, 1000)),
